@@ -95,7 +95,7 @@ static u32 model(Spec& s, const Bytes* y = nullptr) {
         if (l.k == ETH) l.trl = inner + 14 < 60 ? 60 - 14 - inner : 0;
         else if (l.k == VLAN && l.v[3]) l.trl = inner + 4 < 50 ? 50 - 4 - inner : 0;      // libtins' 802.1Q padding rule (64-byte tagged minimum incl. FCS)
         else if (has_ext(l)) { l.trl = ext_struct_size(l); if (i + 1 < n) { u32 p = pad_to(inner, l.k == ICMP4 ? 4 : 8); if (p < 128) p = 128; l.trl += p - inner; } }
-        else if (y && i + 1 < n && ((l.k == ICMP4 && icmp4_ext_ok(l.v[0])) || (l.k == ICMP6K && l.v[0] == 3))) {
+        else if (y && i + 1 < n && ((l.k == ICMP4 && icmp4_ext_ok(l.v[0])) || (l.k == ICMP6K && (l.v[0] == 3 || l.v[0] == 1)))) {
             u32 unit = l.k == ICMP4 ? 4 : 8, lp = l.off + (l.k == ICMP4 ? 5 : 4); u32 lf = lp < y->size() ? (*y)[lp] : 0;
             if (lf && lf * unit >= inner && lf * unit - inner < unit) l.trl = lf * unit - inner;
         }
@@ -240,7 +240,14 @@ struct Ck {
     void rfc4884(size_t i, bool v6) {
         const L& l = s.ls[i]; size_t n = s.ls.size(); u32 unit = v6 ? 8 : 4; u32 body = l.off + l.hlen; u32 inner = i + 1 < n ? s.ls[i + 1].end - s.ls[i + 1].off : 0;
         u32 lf = v6 ? y[l.off + 4] : y[l.off + 5];
-        if (has_ext(l)) {
+        if (has_ext(l) && i + 1 >= n) {      // no datagram quoted: nothing a receiver could skip, so the length attribute has nothing to announce (no RFC 4884 parser finds such an extension)
+            u32 es = l.end - ext_struct_size(l);
+            expect("length", l.k, "rfc4884-ext-without-datagram", lf, 0, "RFC 4884 length field announces an original datagram although none is quoted");
+            expect("length", l.k, "rfc4884-ext-without-datagram", es, body, "extension structure must follow the header directly when no datagram is quoted");
+            cksum(l.k, "ext", es, l.end, es + 2, 0, false, "ICMP extension structure checksum", 0);
+            cnt("rfc4884-ext-without-datagram");
+        }
+        else if (has_ext(l)) {
             u32 es = l.end - ext_struct_size(l);
             if (lf) expect("length", l.k, "rfc4884", (u64)body + lf * unit, es, "RFC 4884 length field must span the padded original datagram up to the extension structure");
             else expect("length", l.k, "rfc4884-compat", es, body + 128, "with a zero RFC 4884 length the extension structure must start at offset 128 of the payload");
@@ -596,7 +603,8 @@ static void g_icmp4(Rng& r, Spec& s) {
     switch (r.below(6)) { case 0: len = 28; break; case 1: len = 120 + r.below(17); break; case 2: len = 4 * r.below(137); break; default: len = r.below(549); }
     if (inner_ip) { len = len < 28 ? 0 : len - 28; }
     size_t inner = inner_ip ? len + 28 : len;
-    if (inner == 0 && ext) { len = 8; inner = 8; inner_ip = false; }
+    if (ext && r.chance(1, 8)) { inner = 0; len = 0; inner_ip = false; }
+    if (inner == 0 && ext) { if (r.chance(1, 2)) { len = 8; inner = 8; inner_ip = false; } else { s.ls.push_back(l); return; } }      // or: an extension structure and no quoted datagram at all
     s.ls.push_back(l);
     if (inner_ip) { L ip(IP4); g_ip4_fields(r, ip, false); s.ls.push_back(ip); s.ls.push_back(g_udp(r)); s.ls.push_back(raw(r, len)); }
     else if (inner || r.chance(1, 2)) {
@@ -612,9 +620,10 @@ static void g_icmp6(Rng& r, Spec& s) {
     if (c < 14) { static const u32 T[] = {133, 134, 135, 136, 137}; l.v[0] = T[r.below(5)]; l.a1 = g_ip6(r); l.a2 = g_ip6(r); l.v[2] = r.byte(); l.v[3] = r.below(65536); l.v[5] = (u32)r.next(); l.v[6] = (u32)r.next(); if (l.v[0] == 136) l.v[2] &= 3;
         u32 n = r.below(4); for (u32 j = 0; j < n; ++j) l.tl.push_back({1 + r.below(5), r.bytes(6 + 8 * r.below(4))}); s.ls.push_back(l); return; }
     if (c < 17) { static const u32 T[] = {1, 2, 4}; l.v[0] = T[r.below(3)]; l.v[1] = r.below(4); s.ls.push_back(l); s.ls.push_back(raw(r, 40 + r.below(400))); return; }
-    l.v[0] = 3; l.v[1] = r.below(2); bool ext = r.chance(1, 2); if (ext) l.tl = g_exts(r); l.v[4] = r.chance(2, 5);
+    l.v[0] = r.chance(1, 3) ? 1 : 3; l.v[1] = r.below(2); bool ext = r.chance(1, 2); if (ext) l.tl = g_exts(r); l.v[4] = r.chance(2, 5);      // Destination Unreachable and Time Exceeded: the two ICMPv6 messages RFC 4884 extends
     size_t inner; switch (r.below(5)) { case 0: inner = 48; break; case 1: inner = 120 + r.below(17); break; case 2: inner = 8 * r.below(150); break; default: inner = 40 + r.below(1100); }
-    if (inner == 0 && ext) inner = 48;
+    if (ext && r.chance(1, 8)) inner = 0;
+    if (inner == 0 && ext) { if (r.chance(1, 2)) inner = 48; else { s.ls.push_back(l); return; } }      // or: an extension structure and no quoted datagram at all
     s.ls.push_back(l); L p = raw(r, inner);
     if (!ext && inner >= 132) { Bytes& b = p.raw; if (fold(ocsum(&b[128], inner - 128)) == 0xffff) b[130] ^= 0x5a; }
     s.ls.push_back(p);
